@@ -155,16 +155,18 @@ Fixpoint chunks (now next : Z) (ops : list op) : list (list event) :=
 Definition server_history (start : Z) (ops : list op) : list event :=
   concat (chunks start (start + clean_period) ops).
 
+(* per op: the outcomes of its events and the number of cache entries afterwards
+   (len(sta.UsedRandom), what makes the cleaner's effect observable) *)
 Fixpoint run_chunks (rule : evict_rule) (keyfn : list N -> list N) (c : cache) (chs : list (list event))
-  : list (list (option outcome)) :=
+  : list (list (option outcome) * nat) :=
   match chs with
   | [] => []
-  | ch :: r => let (c', os) := run rule keyfn c ch in os :: run_chunks rule keyfn c' r
+  | ch :: r => let (c', os) := run rule keyfn c ch in (os, length c') :: run_chunks rule keyfn c' r
   end.
 
-(* observation per op: sleeps print the number of clean-ups that ran, presentations their
-   outcome, concurrent presentations the counts (accepted, replays, other) *)
-Inductive obs := ObsSleep (ncleans : nat) | ObsPresent (o : outcome) | ObsConc (acc rep oth : nat).
+(* observation per op, each with the cache size after it: a sleep (clean-ups ran inside it),
+   the outcome of a presentation, the counts (accepted, replays, other) of n concurrent ones *)
+Inductive obs := ObsSleep (size : nat) | ObsPresent (o : outcome) (size : nat) | ObsConc (acc rep oth : nat) (size : nat).
 
 Fixpoint count_out (os : list (option outcome)) : nat * nat * nat :=
   match os with
@@ -176,16 +178,17 @@ Fixpoint count_out (os : list (option outcome)) : nat * nat * nat :=
               end
   end.
 
-Definition obs_of (o : op) (os : list (option outcome)) : obs :=
+Definition obs_of (o : op) (r : list (option outcome) * nat) : obs :=
+  let (os, sz) := r in
   match o with
-  | OpSleep _ => ObsSleep (length os)
-  | OpPresent _ => match os with Some x :: _ => ObsPresent x | _ => ObsPresent OOther end
-  | OpConcurrent _ _ => let '(a, b, c) := count_out os in ObsConc a b c
+  | OpSleep _ => ObsSleep sz
+  | OpPresent _ => match os with Some x :: _ => ObsPresent x sz | _ => ObsPresent OOther sz end
+  | OpConcurrent _ _ => let '(a, b, c) := count_out os in ObsConc a b c sz
   end.
 
-Fixpoint zip_obs (ops : list op) (oss : list (list (option outcome))) : list obs :=
-  match ops, oss with
-  | o :: r, os :: rs => obs_of o os :: zip_obs r rs
+Fixpoint zip_obs (ops : list op) (rs : list (list (option outcome) * nat)) : list obs :=
+  match ops, rs with
+  | o :: r, x :: rs' => obs_of o x :: zip_obs r rs'
   | _, _ => []
   end.
 
